@@ -1,6 +1,6 @@
 from vlib.core import Q, LL
 from vlib.common import *
-import importlib.util, os
+import importlib.util, os, re
 
 def other_plan(pid, tier):
     here = os.path.dirname(os.path.abspath(__file__))
@@ -58,7 +58,7 @@ def plan(tier):
     for q in other_plan('C07', tier):
         if q.name.startswith('driver:') and (':inplace' in q.name or ':n1:' in q.name or ':n0:' in q.name): pick.append(q)
     for q in other_plan('C10', tier):
-        if q.name.startswith('accept:') and (':plain:' in q.name or ':tweaked:' in q.name): pick.append(q)
+        if q.name.startswith('accept:') and (':plain:' in q.name or ':tweaked:' in q.name) and (tier == 'thorough' or (':ir' in q.name and re.search(r':(17|19|33|47|9|23):', q.name))): pick.append(q)
     for q in other_plan('C04', tier):
         if q.name.startswith('step:'): pick.append(q)
     for q in pick:
